@@ -1,6 +1,7 @@
 import RtenVerif.Driver.Util
 import RtenVerif.Model.ShapeInfer
 import RtenVerif.Model.ShapeExec
+import RtenVerif.Model.PoolSize
 
 namespace RtenVerif.Driver.C10
 open RtenVerif.Driver RtenVerif.ShapeInfer
@@ -281,6 +282,18 @@ def handle (line : String) : String :=
   | head :: tensors =>
     match words head with
     | "graph" :: _ => "skip"
+    | "poolsize" :: rest =>
+      let get (k : String) : Option Nat :=
+        rest.findSome? fun w => if w.startsWith (k ++ "=") then ((w.drop (k.length + 1)).toString).toNat? else none
+      match get "in", get "k", get "s", get "d", get "ps", get "pe", get "ceil" with
+      | some i, some k, some st, some d, some ps, some pe, some c =>
+        let ceil := c == 1
+        match poolExecSize i k st d ps pe ceil with
+        | some n => s!"infer={poolInferSize i k st d ps pe ceil} exec={n}"
+        | none =>
+          -- the executor rejects the configuration; inference still produces a number
+          s!"infer={poolInferSize i k st d ps pe ceil} exec=err"
+      | _, _, _, _, _, _, _ => "bad-request"
     | ["exec", key, attrs] =>
       match ((tensors.map fun t => t.trimAscii.toString).filter (fun t => !t.isEmpty) |>.map parseTensor).mapM id with
       | some ins =>
